@@ -177,73 +177,51 @@ Proof. intros ->. apply read_tmessage_ok. Qed.
 Arguments parse_uint : simpl never.
 Arguments has_idx : simpl never.
 
-Lemma union_loop_branch b G g fs nx tail :
-  G = ub_fuel b + S (S g) -> ub_ok1 b -> has_idx (ub_i b) fs = false -> after_ok nx ->
-  read_union_loop (S G) fs [] [] [] false (mk (res (ub_toks b ++ [nx]) tail) nlT false)
-  = read_union_loop G (fs ++ [ub_field b]) [] [] [] false (kept nx tail).
+(* one member: its tokens end with the newline after its close curly, which the advance "past the curly" reads - the line is
+   over, nothing is skipped, and what follows is read as the next line *)
+Lemma union_loop_branch b G g fs tail :
+  G = ub_fuel b + S (S g) -> ub_ok1 b -> has_idx (ub_i b) fs = false ->
+  read_union_loop (S G) fs [] [] [] false (mk (res (ub_toks b) tail) nlT false)
+  = read_union_loop G (fs ++ [ub_field b]) [] [] [] false (mk tail nlT false).
 Proof.
-  intros HG [Hp Hf] Hi (Hn1 & Hn2 & Hn3).
-  assert (HG0 : G <> 0) by lia.
+  intros HG [Hp Hf] Hi.
   destruct b as [ds i nm fl|ds i nm fl]; cbn [ub_toks ub_fuel ub_field ub_i ub_ds] in *.
-  - replace (([numT ds; arrowT; structT] ++ ([idT nm; openT; nlT] ++ tfields_toks fl ++ [closeT]) ++ [nlT]) ++ [nx])
-      with ([numT ds; arrowT; structT] ++ ([idT nm; openT; nlT] ++ tfields_toks fl ++ [closeT]) ++ [nlT; nx]) by (rewrite <- !app_assoc; reflexivity).
-    rewrite res_app, (res_app ([idT nm; openT; nlT] ++ tfields_toks fl ++ [closeT])).
+  - rewrite res_app, (res_app ([idT nm; openT; nlT] ++ tfields_toks fl ++ [closeT])).
     match goal with |- context [res ([idT nm; openT; nlT] ++ ?y) ?x] => set (R := res ([idT nm; openT; nlT] ++ y) x) end.
     unfold res at 1. cbn [map app read_union_loop]. ustep. rewrite Hp. cbv beta iota. rewrite Hi. ustep.
-    subst R. pose proof (read_tstruct_ok' G nm fl g (res [nlT; nx] tail) structT HG Hf) as Er. unfold mk in Er. rewrite Er. clear Er. unfold res. cbn [map app]. ustep.
-    pose proof (skip_eol_peek G nx tail nlT HG0 Hn2 Hn3) as Es. unfold mk, kept in Es. rewrite Es. ustep. rewrite Hn1. ustep. reflexivity.
-  - replace (([numT ds; arrowT; messageT] ++ ([idT nm; openT; nlT] ++ tmfields_toks fl ++ [closeT]) ++ [nlT]) ++ [nx])
-      with ([numT ds; arrowT; messageT] ++ ([idT nm; openT; nlT] ++ tmfields_toks fl ++ [closeT]) ++ [nlT; nx]) by (rewrite <- !app_assoc; reflexivity).
-    rewrite res_app, (res_app ([idT nm; openT; nlT] ++ tmfields_toks fl ++ [closeT])).
+    subst R. pose proof (read_tstruct_ok' G nm fl g (res [nlT] tail) structT HG Hf) as Er. unfold mk in Er. rewrite Er. clear Er. unfold res. cbn [map app]. ustep.
+    reflexivity.
+  - rewrite res_app, (res_app ([idT nm; openT; nlT] ++ tmfields_toks fl ++ [closeT])).
     match goal with |- context [res ([idT nm; openT; nlT] ++ ?y) ?x] => set (R := res ([idT nm; openT; nlT] ++ y) x) end.
     unfold res at 1. cbn [map app read_union_loop]. ustep. rewrite Hp. cbv beta iota. rewrite Hi. ustep.
-    subst R. pose proof (read_tmessage_ok' G nm fl g (res [nlT; nx] tail) messageT HG Hf) as Er. unfold mk in Er. rewrite Er. clear Er. unfold res. cbn [map app]. ustep.
-    pose proof (skip_eol_peek G nx tail nlT HG0 Hn2 Hn3) as Es. unfold mk, kept in Es. rewrite Es. ustep. rewrite Hn1. ustep. reflexivity.
+    subst R. pose proof (read_tmessage_ok' G nm fl g (res [nlT] tail) messageT HG Hf) as Er. unfold mk in Er. rewrite Er. clear Er. unfold res. cbn [map app]. ustep.
+    reflexivity.
 Qed.
 
-(* entering an iteration with a kept token (peeked after the previous branch) is entering it with that token next *)
-Lemma union_loop_kept G t0 R fs :
-  N.eqb (kind t0) kCloseCu = false ->
-  read_union_loop (S G) fs [] [] [] false (kept t0 R) = read_union_loop (S G) fs [] [] [] false (mk (NT t0 [] :: R) nlT false).
-Proof. intros H. cbn [read_union_loop]. ustep. rewrite H. reflexivity. Qed.
-Lemma union_loop_close G fs R : read_union_loop (S G) fs [] [] [] false (kept closeT R) = POk fs (kept closeT R).
-Proof. cbn [read_union_loop]. ustep. reflexivity. Qed.
+(* the closing brace of the union, on its own line *)
+Lemma union_loop_close G fs tail : read_union_loop (S (S G)) fs [] [] [] false (mk (res [closeT] tail) nlT false) = POk fs (mk tail closeT false).
+Proof. unfold res. cbn [map app read_union_loop]. ustep. cbn [read_union_loop]. ustep. reflexivity. Qed.
 
 Definition ubs_toks (bl : list ubranch) : list token := flat_map ub_toks bl.
 Definition usum (bl : list ubranch) : nat := fold_right (fun b acc => ub_fuel b + 3 + acc) 0 bl.
 
-Lemma ub_toks_head b : exists r, ub_toks b = numT (ub_ds b) :: r.
-Proof. destruct b; cbn [ub_toks ub_ds app]; eauto. Qed.
-Lemma num_after_ok ds : after_ok (numT ds). Proof. repeat split. Qed.
-Lemma close_after_ok : after_ok closeT. Proof. repeat split. Qed.
-
-(* all the branches, from "at a newline" to "the closing brace peeked" *)
-Lemma union_loop_branches : forall bl g fs tail, ubs_ok (map fst fs) bl -> bl <> [] ->
-  read_union_loop (usum bl + S g) fs [] [] [] false (mk (res (ubs_toks bl ++ [closeT]) tail) nlT false)
-  = POk (fs ++ map ub_field bl) (kept closeT tail).
+(* all the members, from "at a newline" to the closing brace *)
+Lemma union_loop_branches : forall bl g fs tail, ubs_ok (map fst fs) bl ->
+  read_union_loop (usum bl + S (S g)) fs [] [] [] false (mk (res (ubs_toks bl ++ [closeT]) tail) nlT false)
+  = POk (fs ++ map ub_field bl) (mk tail closeT false).
 Proof.
-  induction bl as [|b bl IH]; intros g fs tail Hok Hne; [congruence|].
-  cbn [ubs_ok] in Hok. destruct Hok as (H1 & Hn & Hr).
-  cbn [ubs_toks flat_map usum fold_right map]. fold (ubs_toks bl). fold (usum bl).
-  assert (Hr' : ubs_ok (map fst (fs ++ [ub_field b])) bl).
-  { rewrite map_app. cbn [map]. replace (fst (ub_field b)) with (ub_i b) by (destruct b; reflexivity).
-    apply (ubs_ok_incl bl (ub_i b :: map fst fs)); [|exact Hr]. intros x Hx. apply in_app_or in Hx. destruct Hx as [Hx|[<-|[]]]; [now right|now left]. }
-  replace (ub_fuel b + 3 + usum bl + S g) with (S (ub_fuel b + S (S (usum bl + S g)))) by lia.
-  destruct bl as [|b2 bl2].
-  - cbn [ubs_toks flat_map app usum fold_right map]. rewrite app_nil_r.
-    rewrite (union_loop_branch b _ (0 + S g) fs closeT tail eq_refl H1 (has_idx_false _ _ Hn) close_after_ok).
-    replace (ub_fuel b + S (S (0 + S g))) with (S (ub_fuel b + S (S g))) by lia. rewrite union_loop_close. reflexivity.
-  - set (bl := b2 :: bl2) in *. destruct (ub_toks_head b2) as [r2 E2].
-    assert (Et : (ub_toks b ++ ubs_toks bl) ++ [closeT] = (ub_toks b ++ [numT (ub_ds b2)]) ++ (r2 ++ ubs_toks bl2 ++ [closeT])).
-    { unfold bl. cbn [ubs_toks flat_map]. fold (ubs_toks bl2). rewrite E2. rewrite <- !app_assoc. reflexivity. }
-    rewrite Et, res_app.
-    rewrite (union_loop_branch b _ (usum bl + S g) fs (numT (ub_ds b2)) _ eq_refl H1 (has_idx_false _ _ Hn) (num_after_ok _)).
-    replace (ub_fuel b + S (S (usum bl + S g))) with (S (usum bl + S (S (ub_fuel b + g)))) by lia.
-    rewrite union_loop_kept by reflexivity.
-    replace (S (usum bl + S (S (ub_fuel b + g)))) with (usum bl + S (S (S (ub_fuel b + g)))) by lia.
-    change (NT (numT (ub_ds b2)) [] :: res (r2 ++ ubs_toks bl2 ++ [closeT]) tail) with (res ((numT (ub_ds b2) :: r2) ++ ubs_toks bl2 ++ [closeT]) tail).
-    rewrite <- E2. replace (ub_toks b2 ++ ubs_toks bl2 ++ [closeT]) with (ubs_toks bl ++ [closeT]) by (unfold bl; cbn [ubs_toks flat_map]; rewrite <- app_assoc; reflexivity).
-    rewrite (IH _ _ _ Hr' ltac:(discriminate)). cbn [map]. rewrite <- app_assoc. reflexivity.
+  induction bl as [|b bl IH]; intros g fs tail Hok.
+  - cbn [ubs_toks flat_map usum fold_right map app plus]. rewrite app_nil_r. apply union_loop_close.
+  - cbn [ubs_ok] in Hok. destruct Hok as (H1 & Hn & Hr).
+    cbn [ubs_toks flat_map usum fold_right map]. fold (ubs_toks bl). fold (usum bl).
+    assert (Hr' : ubs_ok (map fst (fs ++ [ub_field b])) bl).
+    { rewrite map_app. cbn [map]. replace (fst (ub_field b)) with (ub_i b) by (destruct b; reflexivity).
+      apply (ubs_ok_incl bl (ub_i b :: map fst fs)); [|exact Hr]. intros x Hx. apply in_app_or in Hx. destruct Hx as [Hx|[<-|[]]]; [now right|now left]. }
+    replace (ub_fuel b + 3 + usum bl + S (S g)) with (S (ub_fuel b + S (S (usum bl + S (S g))))) by lia.
+    rewrite <- app_assoc, res_app.
+    rewrite (union_loop_branch b _ (usum bl + S (S g)) fs _ eq_refl H1 (has_idx_false _ _ Hn)).
+    replace (ub_fuel b + S (S (usum bl + S (S g)))) with (usum bl + S (S (ub_fuel b + S (S g)))) by lia.
+    rewrite (IH _ _ _ Hr'). cbn [map]. rewrite <- app_assoc. reflexivity.
 Qed.
 
 Definition union_toks (nm : bytes) (bl : list ubranch) : list token := [unionT; idT nm; openT; nlT] ++ ubs_toks bl ++ [closeT; nlT].
@@ -256,10 +234,10 @@ Lemma read_union_head g nm tail c :
 Proof. unfold read_union, res. cbn [map app]. ustep. reflexivity. Qed.
 
 Lemma read_union_ok nm bl g tail c : ubs_ok [] bl -> bl <> [] ->
-  read_union (usum bl + S g) (mk (res ([idT nm; openT; nlT] ++ ubs_toks bl ++ [closeT]) tail) c false)
-  = POk (union_of nm bl) (kept closeT tail).
+  read_union (usum bl + S (S g)) (mk (res ([idT nm; openT; nlT] ++ ubs_toks bl ++ [closeT]) tail) c false)
+  = POk (union_of nm bl) (mk tail closeT false).
 Proof.
-  intros Hok Hne. rewrite res_app, read_union_head. unfold bind. rewrite (union_loop_branches bl g [] tail Hok Hne). reflexivity.
+  intros Hok _. rewrite res_app, read_union_head. unfold bind. rewrite (union_loop_branches bl g [] tail Hok). reflexivity.
 Qed.
 
 Definition add_union (f : file) (u : union_) : file :=
@@ -278,22 +256,9 @@ Proof.
   cbn [N.eqb Pos.eqb kNewline kBlockC kLineC kOpenSq andb orb negb]. reflexivity.
 Qed.
 
-(* after the union the peeked closing brace is delivered to the top-level loop, which ignores it; then the newline *)
-Lemma top_after_union g f tail :
-  top_loop (S (S g)) f [] 0%N false false (kept closeT (res [nlT] tail)) = top_loop g f [] 0%N false false (mk tail nlT false).
-Proof.
-  cbn [top_loop]. unfold res, kept. cbn [map app].
-  unfold bind at 1. unfold p_next at 1. cbn [keep rs cur perrs negb].
-  unfold bind at 1. unfold p_tok at 1. cbn [cur kind closeT].
-  cbn [N.eqb Pos.eqb kNewline kBlockC kLineC kOpenSq kCloseCu andb orb negb].
-  unfold bind at 1. unfold p_next at 1. cbn [keep rs cur perrs negb].
-  unfold bind at 1. unfold p_tok at 1. cbn [cur kind nlT].
-  cbn [N.eqb Pos.eqb kNewline kBlockC kLineC kOpenSq andb orb negb]. reflexivity.
-Qed.
-
 Lemma top_union nm bl g f tail c : ubs_ok [] bl -> bl <> [] ->
   top_loop (S (usum bl + S (S (S g)))) f [] 0%N false false (mk (res (union_toks nm bl) tail) c false)
-  = top_loop (usum bl + S g) (add_union f (union_of nm bl)) [] 0%N false false (mk tail nlT false).
+  = top_loop (usum bl + S (S g)) (add_union f (union_of nm bl)) [] 0%N false false (mk tail nlT false).
 Proof.
   intros Hok Hne. unfold union_toks.
   change ([unionT; idT nm; openT; nlT] ++ ubs_toks bl ++ [closeT; nlT])
@@ -301,9 +266,9 @@ Proof.
   rewrite res_app, top_union_head. unfold bind.
   replace ([idT nm; openT; nlT] ++ ubs_toks bl ++ [closeT] ++ [nlT])
     with (([idT nm; openT; nlT] ++ ubs_toks bl ++ [closeT]) ++ [nlT]) by (rewrite <- !app_assoc; reflexivity).
-  rewrite res_app. replace (usum bl + S (S (S g))) with (usum bl + S (S (S g))) by reflexivity.
-  rewrite (read_union_ok nm bl (S (S g)) _ _ Hok Hne). cbn [un_name un_fields union_of].
-  replace (usum bl + S (S (S g))) with (S (S (usum bl + S g))) by lia. rewrite top_after_union. reflexivity.
+  rewrite res_app.
+  rewrite (read_union_ok nm bl (S g) _ _ Hok Hne). cbn [un_name un_fields union_of].
+  replace (usum bl + S (S (S g))) with (S (usum bl + S (S g))) by lia. rewrite top_newline. reflexivity.
 Qed.
 
 (* ================= the formatter on a union ================= *)
